@@ -56,6 +56,7 @@ FAMILIES = [
     ('scrup', 2), ('scrdown', 2), ('scrleft', 2), ('scrright', 2),
     ('rotate', 2), ('transp', 3), ('stampdown', 3), ('paste', 3), ('anchor', 3),
     ('ice', 2), ('palmode', 2), ('fontpage', 2), ('setfont', 1), ('addfont', 1), ('saucefont', 1), ('remfont', 1), ('fontslot', 1), ('replfont', 1),
+    ('pal', 1), ('sauce', 1), ('enumsel', 1),
     ('centerline', 1), ('jlineleft', 1), ('jlineright', 1), ('eraserow', 1), ('eraserow_s', 1), ('eraserow_e', 1), ('erasecol', 1), ('erasecol_s', 1), ('erasecol_e', 1),
     ('caret', 6), ('cur', 6), ('mirror', 1),
 ]
@@ -88,6 +89,9 @@ def gen_op(rng, fam, w, h):
     if fam == 'saucefont': return 'saucefont %d' % rng.randrange(2)
     if fam == 'remfont': return 'remfont %d' % rng.choice([0, 1, 2, 100])
     if fam in ('fontslot', 'replfont'): return '%s %d %d' % (fam, rng.choice([0, 1, 2, 100]), rng.choice([0, 1, 3, 101]))
+    if fam == 'pal': return rng.choice(['pal 0 11141120 43520 170', 'pal 0 16777215', 'pal ' + ' '.join(str(1052688 * k) for k in range(16))])
+    if fam == 'sauce': return 'sauce %d %d %d' % (rng.randrange(4), rng.choice([w, 80]), rng.choice([h, 25]))
+    if fam == 'enumsel': return 'enumsel %d' % rng.choice([65, 32, 81])
     if fam == 'caret': return 'caret %d %d' % (xs(rng, w), ys(rng, h))
     if fam == 'cur': return 'cur %d' % li(rng)
     if fam == 'mirror': return 'mirror %d' % rng.randrange(2)
@@ -116,7 +120,7 @@ def alphabet(w, h):
         'sel 1 1 %d %d 0' % (w // 2 + 1, h // 2 + 1), 'sel 0 0 %d %d 0' % (w, h), 'sel 2 0 4 %d 2' % h, 'clrsel', 'desel', 'addmask', 'inverse', 'erase',
         'flipx', 'flipy', 'jleft', 'jright', 'center', 'insrow', 'delrow', 'inscol', 'delcol', 'scrup', 'scrdown', 'scrleft', 'scrright',
         'rotate', 'transp', 'stampdown', 'paste 1 1 3 2 7', 'anchor', 'ice 1', 'ice 2', 'palmode 0', 'palmode 3', 'fontpage 1',
-        'setfont 1', 'addfont 2', 'remfont 0', 'fontslot 0 3', 'replfont 0 1', 'centerline', 'jlineright', 'eraserow', 'erasecol_e',
+        'setfont 1', 'addfont 2', 'remfont 0', 'fontslot 0 3', 'replfont 0 1', 'pal 0 11141120 43520 170', 'sauce 2 80 25', 'enumsel 65', 'centerline', 'jlineright', 'eraserow', 'erasecol_e',
         'caret 2 1', 'caret %d %d' % (w - 1, h - 1), 'cur 1', 'cur 0', 'mirror 1',
     ]
 
